@@ -362,9 +362,53 @@ func runC06(c *Ctx) {
 		}
 	}
 
+	// R8 undeclared mutation of shared data panics (C07.R1)
+	if len(pi.pkgs) >= 9 {
+		sub := NewCtx(p, "C07", c.Tier, c.Config)
+		runC07(sub)
+		c.Rule("R8", "EFF", "an undeclared mutation of shared read-only data panics instead of corrupting a sibling (same rule as C07.R1): every exported pdata operation that writes a payload asserts mutability before its first write, also when the write goes through a value obtained from the receiver", 400)
+		for _, o := range sub.Obs {
+			if o.Rule == "C07.R1" && !strings.HasPrefix(o.Construct, "floor:") {
+				c.add(o.Verdict, o.Construct, o.Pos, o.Detail)
+			}
+		}
+	}
+
+	// R9 receivers always emit into a fan-out consumer
+	c.Rule("R9", "PROV", "a receiver node hands its receiver the fan-out consumer built over all next consumers on every path (also for a single next consumer): the fan-out is what clones a read-only payload for a mutating pipeline", 4)
+	if gpk := p.ByPath[pkgGraph]; gpk != nil {
+		n := 0
+		for _, fn := range p.AllSrcFuncs(gpk) {
+			T := recvNamedOfFn(rootFn(fn))
+			if T == nil || T.Obj().Name() != "receiverNode" {
+				continue
+			}
+			for _, ci := range calls(fn, func(ci ssa.CallInstruction) bool {
+				f := calleeOf(ci)
+				return f != nil && strings.HasPrefix(f.Name(), "Create") && len(ci.Common().Args) >= 3
+			}) {
+				args := ci.Common().Args
+				next := args[len(args)-1]
+				if _, isIface := next.Type().Underlying().(*types.Interface); !isIface {
+					continue
+				}
+				n++
+				call, isCall := strip(next).(*ssa.Call)
+				okF := isCall && calleeOf(call) != nil && calleeOf(call).Pkg() != nil && calleeOf(call).Pkg().Path() == modPrefix+"/internal/fanoutconsumer"
+				c.Check(okF, fmt.Sprintf("receiver node: %s receives the fan-out consumer", calleeOf(ci).Name()), p.Pos(ci.Pos()), "argument is fanoutconsumer.New*(all next consumers)", "on some path the receiver is given a next consumer directly instead of the fan-out wrapper: a read-only payload (e.g. from a shared receiver) reaches a mutating pipeline without being cloned, the processor panics or corrupts shared data")
+			}
+		}
+		if n == 0 {
+			c.Undecided("receiver node Create* calls", "-", "none found")
+		}
+	} else {
+		c.Anchor("service/internal/graph")
+	}
+
 	// R6 capability aggregation
 	c.Rule("R6", "DEP", "pipeline capability = fan-out consumer's ∨ every processor's MutatesData; connector aggregate = own ∨ every next consumer's; exporter helper declares MutatesData when either batching configuration is enabled", 4)
 	runC06Caps(c)
+	runC06SingleConsumer(c)
 }
 
 func isLenOfField(v ssa.Value, T *types.Named, field string) bool {
